@@ -16,8 +16,9 @@
                                                    nibabel/fileholders.py:52-82, nibabel/openers.py:246-249 (`prepare`, `closeIfMine`)
   * the `.mat` arithmetic of `Spm99AnalyzeImage.to_file_map` / `from_file_map`
                                                    nibabel/spm99analyze.py:283-300, 316-333 (`spmM`, `spmMat`, `loadMat`)
-  * `data = np.asanyarray(self.dataobj); if isinstance(data, np.memmap): data = np.array(data)`
-                                                   nibabel/analyze.py:1005-1008, mghformat.py:546-550 (`materialize`, `Step.openW`)
+  * `data = np.asanyarray(self.dataobj); if maps_file(data): data = np.array(data)` and `maps_file`
+                                                   nibabel/analyze.py:1004-1007, mghformat.py:548-551,
+                                                   volumeutils.py:392-410 (`materialize`, `mapsFile`, `Step.openW`)
   and the ORIGINAL control flow of the pinned tree (before the fix commits): `analyzeSaveOrig`,
   `niftiSaveOrig` (no restore in `finally`, no copy of a memory-mapped volume).
 
@@ -49,6 +50,11 @@
     0 or infinite after the cast to the header's float32 field) — external flag `Env.slopeRaises`.
   * compressed destinations: `gzHeader` / `gzStream` (section at the end) model the gzip member header that
     CPython writes and the arguments nibabel's `DeterministicGzipFile` passes.
+  * `maps_file` (volumeutils.py:392-410) is modelled on the CHAIN OF OWNERS of the array (`Owner`, `mapsFile`); an
+    image may HOLD an array that views a memory map through any such chain (`Src.view`); `materialize` copies exactly
+    when `mapsFile` says so. `mapsFileOrig` / `isMemmapOrig` are the two earlier tests.
+  * the slice loop of `_write_data` (volumeutils.py:778-802) is modelled only as far as MEMORY SHARING goes
+    (`WFlags`, `sliceBody`, `runSlice`): which statements rebind `dslice` to a new array, which store in place.
 -/
 import NibabelModel.Generated.C07
 namespace Nb.C07
@@ -129,11 +135,63 @@ def loadMat (flip : Bool) (mat? M? : Option M4) : Option M4 :=
   | none, some M => some ((if flip then xflipR.mul M else M).mul to111)
   | none, none => none
 
+/-- one link of the chain of OWNERS of an array object: the array itself, then what it is a view of
+    (`ndarray.base`, `memoryview.obj`, the `base` attribute of an array-interface holder), … up to `None` -/
+inductive Owner where
+  | memmap      -- an `np.memmap` instance
+  | mmap        -- an `mmap.mmap` object
+  | memoryview  -- a `memoryview` (next link: `.obj`)
+  | ndarray     -- a plain `np.ndarray` (next link: `.base`)
+  | other       -- any other object (next link: its `base` attribute, `None` if it has none)
+  deriving Repr, DecidableEq, Inhabited
+
+def Owner.isMap : Owner → Bool
+  | .memmap | .mmap => true
+  | _ => false
+
+/-- `maps_file(arr)` (volumeutils.py:392-410, after fix 8d96c629) on the chain of owners of `arr`:
+    `while arr is not None: if isinstance(arr, (np.memmap, mmap.mmap)): return True;
+     arr = arr.obj if isinstance(arr, memoryview) else getattr(arr, 'base', None)`, then `return False` -/
+def mapsFile : List Owner → Bool
+  | [] => false
+  | o :: rest => if o = .memmap ∨ o = .mmap then true else mapsFile rest
+
+/-- `maps_file` as commit ae98171b had it: `while isinstance(arr, np.ndarray): if isinstance(arr, np.memmap):
+    return True; arr = arr.base`, then `return isinstance(arr, mmap.mmap)` — a memoryview or an array-interface
+    holder ends the walk -/
+def mapsFileOrig : List Owner → Bool
+  | [] => false
+  | .memmap :: _ => true
+  | .ndarray :: rest => mapsFileOrig rest
+  | .mmap :: _ => true
+  | _ :: _ => false
+
+/-- the test of commit fae418e9: `isinstance(data, np.memmap)` -/
+def isMemmapOrig : List Owner → Bool
+  | .memmap :: _ => true
+  | _ => false
+
 /-- where `np.asanyarray(img.dataobj)` takes the data from -/
 inductive Src where
   | array                               -- an ndarray in memory
   | proxy (file : Nat) (mmap : Bool)    -- ArrayProxy on the file with identity `file`; `mmap`: asanyarray gives an np.memmap
+  | view (file : Nat) (chain : List Owner)
+      -- an array object HELD by the image whose chain of owners is `chain` (first link: the array itself); its
+      -- memory is a live map of the file with identity `file` exactly when the chain contains a map link
   deriving Repr, DecidableEq, Inhabited
+
+/-- the chain of owners of `np.asanyarray(self.dataobj)` -/
+def Src.chain : Src → List Owner
+  | .array => [.ndarray]
+  | .proxy _ true => [.memmap, .mmap]
+  | .proxy _ false => [.ndarray]
+  | .view _ ch => ch
+
+/-- the file whose live memory map `np.asanyarray(self.dataobj)` reads from, if any -/
+def Src.mapped : Src → Option Nat
+  | .array => none
+  | .proxy f mm => if mm then some f else none
+  | .view f ch => if ch.any Owner.isMap then some f else none
 
 /-- a float header field as raw bits; `none` = NaN ("compute at write time") -/
 abbrev Scl := Option Nat
@@ -426,13 +484,18 @@ def tryFinally (body : World → Res) (cleanup : World → World) (w : World) : 
   let r := body w
   (r.1, cleanup r.2)
 
-/-- `data = np.asanyarray(self.dataobj); if isinstance(data, np.memmap): data = np.array(data)`
-    (analyze.py:1005-1008, mghformat.py:546-550): afterwards the local `data` is an independent array,
-    unless the copy is not made (`copy = false`: the pinned tree) and the proxy memory-maps its file -/
+/-- `data = np.asanyarray(self.dataobj); if maps_file(data): data = np.array(data)`
+    (analyze.py:1004-1007, mghformat.py:548-551) with the test `detect` on the chain of owners of `data`:
+    afterwards the local `data` is an independent array, unless it reads from a live map of a file and the
+    test does not see that (then no copy is made) -/
+def materializeWith (detect : List Owner → Bool) (w : World) : World :=
+  { w with live := match w.img.src.mapped with
+      | some f => if detect w.img.src.chain then none else some f
+      | none => none }
+
+/-- `copy = true`: the current test `maps_file`; `copy = false`: no copy at all (the pinned tree) -/
 def materialize (copy : Bool) (w : World) : World :=
-  { w with live := match w.img.src with
-      | .proxy f true => if copy then none else some f
-      | _ => none }
+  materializeWith (if copy then mapsFile else fun _ => false) w
 
 /-- `self.update_header()` (analyze.py:1009, mghformat.py:551) -/
 def updateHeader (w : World) : World := { w with img := harmonise w.img }
@@ -654,10 +717,11 @@ def run (cls : Cls) (img : Img) : List Op → Img
 /-! ### the syntactic skeleton of the source this step machine is written for
     (compared by `skeleton_agrees` with the skeleton extracted from the working tree on every run) -/
 
-/-- `analyzeSave`: `materialize true` (the copy, unconditional for a memmap, before any open), `updateHeader`,
+/-- `analyzeSave`: `materialize true` (the copy, made whenever `maps_file(data)`, before any open), `updateHeader`,
     `applyOverride`, then `coreBody` inside `tryFinally … restore` — the four restores are the four fields of `restore` -/
 def expectedSkelAnalyze : List (String × String) := [
-  ("", "if(isinstance(data, np.memmap)): data = np.array(data)"),
+  ("", "test maps_file(data)"),
+  ("", "if(maps_file(data)): data = np.array(data)"),
   ("", "self.update_header()"),
   ("", "if(dtype is not None): hdr.set_data_dtype(dtype)"),
   ("try: ", "if(scale_me): arr_writer = make_array_writer(data, out_dtype, hdr.has_data_slope, hdr.has_data_intercept)"),
@@ -701,7 +765,8 @@ def expectedSkelSpm : List (String × String) := [
 
 /-- `mghSave`: `materialize true`, `updateHeader`, `withOpened … mghBody`, the two bindings -/
 def expectedSkelMgh : List (String × String) := [
-  ("", "if(isinstance(data, np.memmap)): data = np.array(data)"),
+  ("", "test maps_file(data)"),
+  ("", "if(maps_file(data)): data = np.array(data)"),
   ("", "self.update_header()"),
   ("", "with-enter file_map['image'].get_prepare_fileobj('wb') as mghf"),
   ("", "with: hdr.writehdr_to(mghf)"),
@@ -721,6 +786,14 @@ def expectedSkelCifti : List (String × String) := [
   ("", "if(header['qform_code'] == 0): header['pixdim'][:4] = 1"),
   ("", "img = Nifti2Image(data, None, header, dtype=dtype)"),
   ("", "img.to_file_map(file_map or self.file_map)")]
+
+/-- `mapsFile`: the loop over the owners, the two map classes, the two ways to the next owner -/
+def expectedSkelMapsFile : List (String × String) := [
+  ("", "while arr is not None"),
+  ("", "while(arr is not None): if(isinstance(arr, (np.memmap, mmap.mmap))): return True"),
+  ("", "while(arr is not None): if(isinstance(arr, memoryview)): arr = arr.obj"),
+  ("", "while(arr is not None): else(isinstance(arr, memoryview)): arr = getattr(arr, 'base', None)"),
+  ("", "return False")]
 
 /-- `saveByName`: bind first, then `to_file_map()` -/
 def expectedSkelToFilename : List (String × String) := [
@@ -813,5 +886,80 @@ def nibSink (path : List Nat) (level : Nat) (mtime : Nat := Gen.gzOpenMtimeDefau
 /-- `gzip.GzipFile(path, 'wb', level)` / `gzip.open(path, 'wb', level)` — the sink nibabel does NOT use -/
 def plainSink (path : List Nat) (level : Nat) : GzSink :=
   { nameArg := some path, objName := path, mtimeArg := none, level := level }
+
+/-! ### the slice loop of `volumeutils._write_data` (volumeutils.py:778-802): does it ever store into the
+    caller's (the image's) array? -/
+
+/-- which branches of one iteration of the loop are taken; every combination is possible a priori -/
+structure WFlags where
+  preClips  : Bool   -- `pre_clips is not None`
+  inCast    : Bool   -- `in_cast is not None`
+  inter     : Bool   -- `inter != 0.0`
+  slope     : Bool   -- `slope != 1.0`
+  postClips : Bool   -- `post_clips is not None`
+  nanFill   : Bool   -- `nan_fill is not None`
+  anyNan    : Bool   -- `np.any(nans)`
+  castOut   : Bool   -- `dslice.dtype != out_dtype`
+  deriving Repr, DecidableEq, Inhabited
+
+/-- `nan_need_copy = (pre_clips, in_cast, inter, slope, post_clips) == (None, None, 0, 1, None)` -/
+def nanNeedCopy (f : WFlags) : Bool := !f.preClips && !f.inCast && !f.inter && !f.slope && !f.postClips
+
+/-- one statement of the loop body, as far as memory sharing goes -/
+inductive WStmt where
+  | fresh (cond : Bool)    -- `if cond: dslice = <new array>` (np.clip, astype, arithmetic, copy): dslice no longer shares
+  | store (cond : Bool)    -- `if cond: dslice[...] = …`: writes into whatever memory dslice has
+  | read                   -- anything that only reads dslice (`np.isnan`, `tobytes`, `fileobj.write`)
+  deriving Repr, DecidableEq, Inhabited
+
+/-- the loop body in source order (the statements of `Gen.skelWriteData` from `for dslice in data` on); the
+    transpose / squeeze / atleast_2d before the loop and the iteration itself only make VIEWS, so at the top of
+    the body `dslice` shares memory with the caller's array -/
+def sliceBody (f : WFlags) : List WStmt :=
+  [.fresh f.preClips,                                   -- dslice = np.clip(dslice, *pre_clips)
+   .fresh f.inCast,                                     -- dslice = dslice.astype(in_cast)
+   .fresh f.inter,                                      -- dslice = dslice - inter
+   .fresh f.slope,                                      -- dslice = dslice / slope
+   .fresh f.postClips,                                  -- dslice = np.clip(np.rint(dslice), *post_clips)
+   .read,                                               -- nans = np.isnan(dslice)
+   .fresh (f.nanFill && f.anyNan && nanNeedCopy f),     -- if nan_need_copy: dslice = dslice.copy()
+   .store (f.nanFill && f.anyNan),                      -- dslice[nans] = nan_fill
+   .fresh f.castOut,                                    -- dslice = dslice.astype(out_dtype)
+   .read]                                               -- fileobj.write(dslice.tobytes())
+
+/-- run the body: (does dslice still share memory with the input, has the input been stored into) -/
+def runSlice : List WStmt → Bool × Bool → Bool × Bool
+  | [], st => st
+  | .fresh c :: rest, (shared, hit) => runSlice rest (if c then false else shared, hit)
+  | .store c :: rest, (shared, hit) => runSlice rest (shared, hit || (c && shared))
+  | .read :: rest, st => runSlice rest st
+
+def sliceLoopStoresIntoInput (f : WFlags) : Bool := (runSlice (sliceBody f) (true, false)).2
+
+/-- the "optimised" loop of the seeded change class: gather with `np.ascontiguousarray` (no copy when the slice is
+    already contiguous and of the working type: `contig`), then scale IN PLACE -/
+def sliceBodyInplace (contig : Bool) (f : WFlags) : List WStmt :=
+  [.fresh f.preClips, .fresh f.inCast, .fresh ((f.inter || f.slope) && !contig), .store f.inter, .store f.slope,
+   .fresh f.postClips, .read, .fresh (f.nanFill && f.anyNan && nanNeedCopy f), .store (f.nanFill && f.anyNan),
+   .fresh f.castOut, .read]
+
+/-- the source of `_write_data` this body is written for (every statement, from the AST of volumeutils.py) -/
+def expectedSkelWriteData : List (String × String) := [
+  ("", "data = np.squeeze(data)"),
+  ("", "if(data.ndim < 2): data = np.atleast_2d(data)"),
+  ("", "else(data.ndim < 2): if(order == 'F'): data = data.T"),
+  ("", "nan_need_copy = (pre_clips, in_cast, inter, slope, post_clips) == (None, None, 0, 1, None)"),
+  ("", "for dslice in data"),
+  ("", "for(dslice in data): if(pre_clips is not None): dslice = np.clip(dslice, *pre_clips)"),
+  ("", "for(dslice in data): if(in_cast is not None): dslice = dslice.astype(in_cast)"),
+  ("", "for(dslice in data): if(inter != 0.0): dslice = dslice - inter"),
+  ("", "for(dslice in data): if(slope != 1.0): dslice = dslice / slope"),
+  ("", "for(dslice in data): if(post_clips is not None): dslice = np.clip(np.rint(dslice), *post_clips)"),
+  ("", "for(dslice in data): if(nan_fill is not None): nans = np.isnan(dslice)"),
+  ("", "for(dslice in data): if(nan_fill is not None): test np.any(nans)"),
+  ("", "for(dslice in data): if(nan_fill is not None): if(np.any(nans)): if(nan_need_copy): dslice = dslice.copy()"),
+  ("", "for(dslice in data): if(nan_fill is not None): if(np.any(nans)): dslice[nans] = nan_fill"),
+  ("", "for(dslice in data): if(dslice.dtype != out_dtype): dslice = dslice.astype(out_dtype)"),
+  ("", "for(dslice in data): fileobj.write(dslice.tobytes())")]
 
 end Nb.C07
